@@ -948,9 +948,13 @@ var prop = vkit.Prop[Case]{
 	Rule: "cases = (a) a value of one of 8 claims types (ID/access/logout token claims, UserInfo, introspection response, JWT-profile assertion, JWT token request, actor nested <=3) with " +
 		"random registered fields and a JSON-safe custom map whose keys are registered names with probability 1/2: encode, compare with the object the statement prescribes (set registered claims over custom claims), decode, compare; " +
 		"(b) a JSON document from a grammar biased to the tolerant forms and their neighbours, decoded into a claims type or a stand-alone decoder type (Audience, Time, Locales, Locale, Bool, SpaceDelimitedArray): " +
-		"documented value / error-or-zero / never a panic / no custom claim that is not in the document; (c) AES sealing: plaintext bytes (empty, NUL, invalid UTF-8), key 16/24/32 bytes, string and byte API, other key, tampering. " +
+		"documented value / error-or-zero / never a panic / no custom claim that is not in the document; " +
+		"the scalar forms include syntactically well-formed but semantically unknown / out-of-range values next to valid and malformed ones: language tags composed subtag by subtag (each position known / unknown to the registry / malformed; " +
+		"a well-formed tag with an unknown subtag must decode to the undefined locale resp. be left out of a list, as documented on Locale.UnmarshalJSON / ParseLocales), RFC 3339 shaped times with a component out of range, spellings around the strings true / false; " +
+		"(c) AES sealing: plaintext bytes (empty, NUL, invalid UTF-8), a PAIR of different keys of arbitrary lengths 0..80 bytes (independent, one bit apart, sharing a prefix of 16/24/32/any bytes, one extending the other), string and byte API, tampering: " +
+		"whenever sealing under a key succeeds the sealed string opens under it and (plaintext >= 8 bytes) does not open to the plaintext under the other key, in both directions; keys the library refuses make the claim vacuous (counted: aes:vacuous-*); reference comparison and tampering for 16/24/32-byte keys. " +
 		"non-trivial = (a) the custom map collides with >=1 registered name, (b) the document uses a non-canonical tolerant form, (c) plaintext length is not a multiple of the block; " +
-		"distinct = (a) type + colliding set/unset names + set registered names, (b) type + multiset of member forms, (c) API, key length, plaintext length, tampering. " +
+		"distinct = (a) type + colliding set/unset names + set registered names, (b) type + multiset of member forms, (c) API, key length, relation of the two keys (common prefix class), plaintext length, tampering. " +
 		"excluded: custom values that are not JSON-safe (invalid UTF-8, NaN), scope entries with spaces; grey: duplicate member names, case variants of registered names, fractional or >2^53 timestamps, language tags that canonicalisation rewrites",
 	Gen:   genCase,
 	Run:   run,
